@@ -297,6 +297,141 @@ func paramSig(p *pkgInfo, fd *ast.FuncDecl, only map[string]bool) string {
 	return strings.Join(parts, " ")
 }
 
+// methodDecl finds a method by receiver type name and method name.
+func (p *pkgInfo) methodDecl(recv, name string) *ast.FuncDecl {
+	for _, f := range p.files {
+		for _, d := range f.Decls {
+			fd, ok := d.(*ast.FuncDecl)
+			if !ok || fd.Recv == nil || fd.Name.Name != name || len(fd.Recv.List) == 0 {
+				continue
+			}
+			t := fd.Recv.List[0].Type
+			if st, ok := t.(*ast.StarExpr); ok {
+				t = st.X
+			}
+			if id, ok := t.(*ast.Ident); ok && id.Name == recv {
+				return fd
+			}
+		}
+	}
+	return nil
+}
+
+func exprString(e ast.Expr) string {
+	switch e := e.(type) {
+	case *ast.Ident:
+		return e.Name
+	case *ast.SelectorExpr:
+		return exprString(e.X) + "." + e.Sel.Name
+	case *ast.StarExpr:
+		return "*" + exprString(e.X)
+	case *ast.CallExpr:
+		return exprString(e.Fun)
+	}
+	return fmt.Sprintf("%T", e)
+}
+
+// typeSwitchArms lists, in source order, the case types of the first type switch in fd and for
+// each arm the functions/methods it calls (in order).
+var curInfo *types.Info
+
+// callName renders a callee independent of local variable names: `pkg.F` for package functions,
+// `.M` for methods on a local value, `F` for functions of this package; conversions and builtins
+// yield "".
+func callName(ce *ast.CallExpr) string {
+	if curInfo != nil {
+		if tv, ok := curInfo.Types[ce.Fun]; ok && (tv.IsType() || tv.IsBuiltin()) {
+			return ""
+		}
+	}
+	switch f := ce.Fun.(type) {
+	case *ast.Ident:
+		return f.Name
+	case *ast.SelectorExpr:
+		if id, ok := f.X.(*ast.Ident); ok && curInfo != nil {
+			if _, isPkg := curInfo.Uses[id].(*types.PkgName); isPkg {
+				return id.Name + "." + f.Sel.Name
+			}
+		}
+		return "." + f.Sel.Name
+	}
+	return "?"
+}
+
+func typeSwitchArms(fd *ast.FuncDecl) []string {
+	var arms []string
+	ast.Inspect(fd.Body, func(n ast.Node) bool {
+		ts, ok := n.(*ast.TypeSwitchStmt)
+		if !ok || arms != nil {
+			return true
+		}
+		for _, c := range ts.Body.List {
+			cc := c.(*ast.CaseClause)
+			name := "default"
+			if len(cc.List) > 0 {
+				var ns []string
+				for _, t := range cc.List {
+					ns = append(ns, exprString(t))
+				}
+				name = strings.Join(ns, "|")
+			}
+			var calls []string
+			for _, st := range cc.Body {
+				ast.Inspect(st, func(m ast.Node) bool {
+					if ce, ok := m.(*ast.CallExpr); ok {
+						if n := callName(ce); n != "" {
+							calls = append(calls, n)
+						}
+					}
+					return true
+				})
+			}
+			arms = append(arms, name+":"+strings.Join(calls, ","))
+		}
+		return false
+	})
+	return arms
+}
+
+// probeOrder lists, in source order, the interface types a dispatcher function tests with
+// `x, ok := msg.(T)` and the call made when the assertion holds.
+func probeOrder(fd *ast.FuncDecl) []string {
+	var out []string
+	for _, st := range fd.Body.List {
+		ifs, ok := st.(*ast.IfStmt)
+		if !ok {
+			continue
+		}
+		as, ok := ifs.Init.(*ast.AssignStmt)
+		if !ok || len(as.Rhs) != 1 {
+			continue
+		}
+		ta, ok := as.Rhs[0].(*ast.TypeAssertExpr)
+		if !ok {
+			continue
+		}
+		var calls []string
+		ast.Inspect(ifs.Body, func(m ast.Node) bool {
+			if ce, ok := m.(*ast.CallExpr); ok {
+				if n := callName(ce); n != "" {
+					calls = append(calls, n)
+				}
+			}
+			return true
+		})
+		out = append(out, exprString(ta.Type)+":"+strings.Join(calls, ","))
+	}
+	return out
+}
+
+func leanStrList(xs []string) string {
+	qs := make([]string, len(xs))
+	for i, x := range xs {
+		qs[i] = fmt.Sprintf("%q", x)
+	}
+	return "[" + strings.Join(qs, ", ") + "]"
+}
+
 func writeIfChanged(path string, data []byte) {
 	old, err := os.ReadFile(path)
 	if err == nil && bytes.Equal(old, data) {
@@ -318,6 +453,7 @@ func main() {
 		fmt.Println("parse error:", err)
 		os.Exit(1)
 	}
+	curInfo = root.info
 	var b strings.Builder
 	b.WriteString("/- REGENERATED on every run by harness/cmd/extract from /repo's Go source. Do not edit. -/\n")
 	b.WriteString("import Csproto.Model.Basic\nnamespace Csproto.Generated\n\n")
@@ -395,4 +531,36 @@ func main() {
 	}
 	b.WriteString("\nend Csproto.Generated\n")
 	writeIfChanged(filepath.Join(*out, "Facts.lean"), []byte(b.String()))
+
+	// F5: dispatch / probe orders (marshal.go, sizeof.go, encoder.go, decoder.go)
+	var d strings.Builder
+	d.WriteString("/- REGENERATED on every run by harness/cmd/extract from /repo's Go source. Do not edit. -/\nnamespace Csproto.Generated\n\n")
+	if fd := root.methodDecl("Encoder", "EncodeNested"); fd != nil {
+		arms := typeSwitchArms(fd)
+		fmt.Fprintf(&d, "def EncodeNested_arms : List String := %s\n", leanStrList(arms))
+		fmt.Printf("fact F5 EncodeNested arms %v\n", arms)
+	} else {
+		fmt.Println("missing method Encoder.EncodeNested")
+		os.Exit(1)
+	}
+	if fd := root.methodDecl("Decoder", "DecodeNested"); fd != nil {
+		arms := typeSwitchArms(fd)
+		fmt.Fprintf(&d, "def DecodeNested_arms : List String := %s\n", leanStrList(arms))
+		fmt.Printf("fact F5 DecodeNested arms %v\n", arms)
+	} else {
+		fmt.Println("missing method Decoder.DecodeNested")
+		os.Exit(1)
+	}
+	for _, fn := range []string{"Marshal", "Unmarshal", "Size"} {
+		fd := root.funcDecl(fn)
+		if fd == nil {
+			fmt.Printf("missing function %s\n", fn)
+			os.Exit(1)
+		}
+		po := probeOrder(fd)
+		fmt.Fprintf(&d, "def %s_probes : List String := %s\n", fn, leanStrList(po))
+		fmt.Printf("fact F5 %s probes %v\n", fn, po)
+	}
+	d.WriteString("\nend Csproto.Generated\n")
+	writeIfChanged(filepath.Join(*out, "Dispatch.lean"), []byte(d.String()))
 }
